@@ -3,14 +3,51 @@ import SpecterModel.C41.Model
 # C41 — exhaustive exploration: two simultaneous dials and a stale reap at Q (kernel-evaluated)
 
 Every interleaving of the four negotiation ends, the reaps that become due and ONE stale `reapPeer` at Q (a
-second reap of an older, long dead connection) at any point, from every consistent pre-existing cache state.
+second reap of an older, long dead connection) at any point, from every consistent pre-existing cache state
+(one kernel evaluation per pre-state: they are independent, which bounds the memory of each).
 -/
 namespace Specter.C41
 open Gen.C41
 
 set_option maxRecDepth 100000 in
-theorem explore_dual_lateQ : ∀ pre ∈ preStates,
-    explore genTable (goodFor pre) 18 (init true pre (false, true)) = true := by
+theorem explore_dual_lateQ_0 : explore genTable good 18 (init true (none, none) (false, true)) = true := by
   decide +kernel
+
+set_option maxRecDepth 100000 in
+theorem explore_dual_lateQ_1 : explore genTable good 18 (init true (some (.e, .outgoing), none) (false, true)) = true := by
+  decide +kernel
+
+set_option maxRecDepth 100000 in
+theorem explore_dual_lateQ_2 : explore genTable good 18 (init true (some (.e, .incoming), none) (false, true)) = true := by
+  decide +kernel
+
+set_option maxRecDepth 100000 in
+theorem explore_dual_lateQ_3 : explore genTable good 18 (init true (none, some (.e, .incoming)) (false, true)) = true := by
+  decide +kernel
+
+set_option maxRecDepth 100000 in
+theorem explore_dual_lateQ_4 : explore genTable good 18 (init true (none, some (.e, .outgoing)) (false, true)) = true := by
+  decide +kernel
+
+set_option maxRecDepth 100000 in
+theorem explore_dual_lateQ_5 : explore genTable good 18 (init true (some (.e, .outgoing), some (.e, .incoming)) (false, true)) = true := by
+  decide +kernel
+
+set_option maxRecDepth 100000 in
+theorem explore_dual_lateQ_6 : explore genTable good 18 (init true (some (.e, .incoming), some (.e, .outgoing)) (false, true)) = true := by
+  decide +kernel
+
+theorem explore_dual_lateQ : ∀ pre ∈ preStates,
+    explore genTable good 18 (init true pre (false, true)) = true := by
+  intro pre hp
+  simp only [preStates, List.mem_cons, List.not_mem_nil, or_false] at hp
+  rcases hp with h | h | h | h | h | h | h <;> subst h
+  · exact explore_dual_lateQ_0
+  · exact explore_dual_lateQ_1
+  · exact explore_dual_lateQ_2
+  · exact explore_dual_lateQ_3
+  · exact explore_dual_lateQ_4
+  · exact explore_dual_lateQ_5
+  · exact explore_dual_lateQ_6
 
 end Specter.C41
